@@ -96,10 +96,13 @@ def step (_ : Unit) (ts : List String) : Unit × String :=
   | ["tar", mode, pre, spec] => ((), judgeTarLine mode pre spec out)
   | "path" :: _ => ((), "ok")      -- corpus lines of the sibling suites (shared corpus glob), judged there
   | "frames" :: _ => ((), "ok")
+  | "clean" :: _ => ((), "ok")
+  | "join" :: _ => ((), "ok")
   | _ => ((), "reject bad-op " ++ " ".intercalate op)
 
 def stepPath (_ : Unit) (ts : List String) : Unit × String :=
   let (op, out) := splitArrow ts
+  if op.head? = some "clean" ∨ op.head? = some "join" then ((), "ok") else   -- model-compared only
   if op.head? ≠ some "path" then ((), "reject bad-op") else
   match out with
   | ["err", _] => ((), "ok")
